@@ -116,6 +116,22 @@ def transform(case):
   return {'evals': evals, 'nontrivial': n > eff or n > 1, 'outcome': [n, sn, round(float(np.sum(outs['ramp'])), 2)]}
 
 
+import contextlib
+
+
+@contextlib.contextmanager
+def key_env(kind):
+  """Configurations under which a caller may create and use PRNG keys: 'default'; 'legacy_layout' - the non-partitionable
+  threefry bit layout (jax_threefry_partitionable=False), in which the bits drawn for a shorter shape are NOT a prefix of
+  those drawn for a longer one."""
+  import jax
+  if kind == 'legacy_layout':
+    with jax.threefry_partitionable(False):
+      yield
+  else:
+    yield
+
+
 def _rot_input(shape, seed):
   size = int(np.prod(shape)) if shape else 1
   v = np.asarray(core.value_pool(seed + size, size, lo=-4, hi=4, denom=2), np.float32)
@@ -132,6 +148,8 @@ def rotation(case):
   size = x.size
   d = 1 << max(0, math.ceil(math.log2(size))) if size > 1 else 1
   outs = []
+  stack = contextlib.ExitStack()
+  stack.enter_context(key_env(case.get('keyenv', 'default')))
   for k in case['keys']:
     nc = dict(case, keys=[k])
     key = jax.random.PRNGKey(k)
@@ -153,6 +171,7 @@ def rotation(case):
       w[:size] = x.reshape(-1)
       _close(y, fwht(w * signs) / math.sqrt(d), d, 'rotation differs from H D x / sqrt(d)', nc)
     outs.append(y.round(5).tolist())
+  stack.close()
   if size >= 8 and len(case['keys']) >= 4:
     require(len({core.digest(o) for o in outs}) > 1, 'all keys give the same rotation')
   return {'evals': len(case['keys']), 'nontrivial': size != d or len(shape) != 1, 'outcomes': [core.digest(o) for o in outs]}
@@ -233,7 +252,50 @@ def rotation_pytree_sequence(case):
   return {'evals': evals, 'nontrivial': True, 'outcome': case['seq']}
 
 
-SUBS = {'rotation_pytree_sequence': rotation_pytree_sequence, 'transform': transform, 'rotation': rotation, 'rotation_pytree': rotation_pytree}
+def rotation_pytree_containers(case):
+  """Parameter trees with empty containers / None entries between the array leaves (an optimizer's EmptyState, a layer
+  without parameters): structure, shapes and values are restored leaf-wise."""
+  import collections
+  import jax
+  import jax.numpy as jnp
+  from fedjax.aggregators import walsh_hadamard as wh
+  Empty = collections.namedtuple('Empty', [])
+  Pair = collections.namedtuple('Pair', ['first', 'second'])
+  a = lambda *shape: jnp.asarray((np.arange(int(np.prod(shape)) if shape else 1, dtype=np.float32) * 0.5 - 1.25).reshape(shape))
+  trees = {
+      'empty_tuple_first': {'head': (), 'w': a(3, 4)},
+      'empty_namedtuple': (Empty(), {'w': a(2, 3), 'b': a(3)}),
+      'empty_list_dict': {'a': [], 'b': a(5), 'c': {}, 'd': a(2, 2)},
+      'between': [(), a(2, 2), (), a(7), Empty(), a()],
+      'empty_tail': {'tail': (), 'z': a(4)},
+      'none_entries': {'a': None, 'b': a(3), 'c': Pair(None, a(2, 5))},
+      'tuple_of_scalars': (a(), a(), {'k': (a(3),)}),
+  }
+  tree = trees[case['tree']]
+  leaves = jax.tree_util.tree_leaves(tree)
+  evals = 0
+  with key_env(case.get('keyenv', 'default')):
+    for k in case['keys']:
+      nc = dict(case, keys=[k])
+      key = jax.random.PRNGKey(k)
+      rot, shapes = wh.structured_rotation_pytree(tree, key)
+      require(jax.tree_util.tree_structure(rot) == jax.tree_util.tree_structure(tree), 'tree structure changed by the rotation',
+              case=nc)
+      back = wh.inverse_structured_rotation_pytree(rot, key, shapes)
+      require(jax.tree_util.tree_structure(back) == jax.tree_util.tree_structure(tree), 'tree structure not restored by the '
+              'inverse rotation', str(jax.tree_util.tree_structure(tree)), str(jax.tree_util.tree_structure(back)), case=nc)
+      for l, r, b in zip(leaves, jax.tree_util.tree_leaves(rot), jax.tree_util.tree_leaves(back)):
+        nl, nr = float(jnp.linalg.norm(l.reshape(-1))), float(jnp.linalg.norm(r))
+        require(abs(nl - nr) <= 1e-5 * max(1.0, nl), 'a leaf\'s norm is not preserved', nl, nr, case=nc)
+        require(np.asarray(b).shape == np.asarray(l).shape, 'a leaf is not restored in its original shape',
+                list(np.asarray(l).shape), list(np.asarray(b).shape), case=nc)
+        require(bool(np.allclose(np.asarray(b), np.asarray(l), atol=5e-5)), 'a leaf is not restored by the inverse rotation '
+                'with the same key', np.asarray(l).tolist(), np.asarray(b).tolist(), case=nc)
+      evals += 1
+  return {'evals': evals, 'nontrivial': True, 'outcome': case['tree']}
+
+
+SUBS = {'rotation_pytree_containers': rotation_pytree_containers, 'rotation_pytree_sequence': rotation_pytree_sequence, 'transform': transform, 'rotation': rotation, 'rotation_pytree': rotation_pytree}
 TIMEOUTS = {k: 900 for k in SUBS}
 
 
@@ -241,7 +303,7 @@ def plan(ctx):
   th = ctx.tier == 'thorough'
   ctx.rule = ('transform: every length 2^0..2^14 x every explicit block size 2^1..2^8 + the default; full matrix for '
               'n<=64, 9 structured vectors + 12 linear combinations + 3 involutions otherwise; invalid combinations must '
-              'raise ValueError; rotation: 10 shapes incl. 0-d x 8 keys; pytrees: 5 structures x keys; distinct = case tuple; '
+              'raise ValueError; rotation: 10 shapes incl. 0-d x 8 keys (+ the legacy threefry bit layout); pytrees: 5 structures x keys, 7 trees with empty containers / None entries; distinct = case tuple; '
               'non-trivial = more than one einsum dimension / padded or multi-dimensional rotation input')
   ctx.assumptions += ['(length, block size) pairs that need 7 or 8 einsum dimensions are executed op-by-op under '
                       'jax.disable_jit() (same Python code path) because XLA:CPU takes minutes to compile the fused graph',
@@ -254,6 +316,12 @@ def plan(ctx):
   ctx.pmap('transform', tc, chunk=4)
   shapes = [(), (1,), (2,), (3,), (5,), (8,), (17,), (2, 3), (3, 1, 2), (1000,)] + ([(4, 4, 4), (1, 1), (129,)] if th else [])
   ctx.pmap('rotation', [{'shape': list(s), 'keys': list(range(32 if th else 8)), 'seed': ctx.seed} for s in shapes], chunk=1)
+  ctx.pmap('rotation', [{'shape': list(sh), 'keys': list(range(8 if th else 3)), 'seed': ctx.seed, 'keyenv': 'legacy_layout'}
+                        for sh in ([(), (2,), (3,), (5,), (8,), (2, 3), (17,)] if th else [(3,), (5,), (2, 3), (8,)])], chunk=2)
+  ctx.pmap('rotation_pytree_containers', [{'tree': t, 'keys': [0, 1] if not th else list(range(6)), 'keyenv': ke}
+                                          for t in ('empty_tuple_first', 'empty_namedtuple', 'empty_list_dict', 'between',
+                                                    'empty_tail', 'none_entries', 'tuple_of_scalars')
+                                          for ke in ('default', 'legacy_layout')], chunk=2)
   ctx.pmap('rotation_pytree_sequence', [{'seq': q, 'keys': [0, 1, 2] if not th else list(range(8))}
                                         for q in ('same_structure', 'bare_arrays', 'lists', 'pad_collisions')], chunk=1)
   ctx.pmap('rotation_pytree', [{'tree': t, 'keys': [0, 1, 2] if not th else list(range(6)), 'seed': ctx.seed}
